@@ -71,6 +71,28 @@ THEOREMS = [
     "Verif.C08.units_seconds",
     "Verif.C08.units_position",
     "Verif.C08.units_duration",
+    "Verif.C08.link_tracks_wellformed",
+    "Verif.C08.interpolate_times",
+    "Verif.C08.interpolate_wellformed",
+    "Verif.C08.interpolate_keeps_points",
+    "Verif.C08.interpolate_idempotent",
+    "Verif.C08.split_spec",
+    "Verif.C08.split_wellformed",
+    "Verif.C08.split_conserves_points",
+    "Verif.C08.merge_spec",
+    "Verif.C08.merge_wellformed",
+    "Verif.C08.filter_spec",
+    "Verif.C08.filter_idempotent",
+    "Verif.C08.edit_step_wellformed",
+    "Verif.C08.edit_program_wellformed",
+    "Verif.C08.tracked_then_edited_wellformed",
+    "Verif.C08.refine_pixels_inside",
+    "Verif.C08.refine_positions_inside",
+    "Verif.C08.refine_positions_between_pixel_centres",
+    "Verif.C08.refine_tracks_wellformed",
+    "Verif.C08.refine_program_wellformed",
+    "Verif.C08.merge_close_sublist",
+    "Verif.C08.merge_close_removed_spec",
 ]
 RULE = (
     "exhaustive small scope: the linker on all peak layouts of <=3 frames x <=2 peaks on a 4-point coordinate grid "
@@ -97,6 +119,21 @@ RULE = (
     "by indexing and +, split/merge within one kymograph; after every step of every program the photon counts that "
     "tracking or centroid refinement reported for a stated width and sample_from_image with a stated half width 0-4 are "
     "compared with the window sum on the track's own kymograph; a malformed stream of refused parameters. "
+    "Editing operations (model ops c08.edit / c08.editprog): exhaustive small scope on hand-made tracks - every non-empty "
+    "set of lines of a 4-line kymograph alone and in pairs (quick: every fourth pair), on a fresh group each: both "
+    "interpolations, every split (nodes -1..len+1, min_length 1..3), every merge of any two nodes of any two tracks "
+    "(same track, same line, either order), filters on a grid of lengths and durations (exact ties on a dyadic line "
+    "time); seeded random programs of 1-6 such steps on 1-4 tracks (edge coordinates, calibrated and uncalibrated), each "
+    "step and the whole program through the model; and every interpolate/split/merge/filter step of every editing "
+    "program of the edit streams (the group the real code had before the step -> the group it had after it). "
+    "Centroid refinement without bias correction (model ops c08.refine / c08.moment): exhaustive small scope - every "
+    "one-line image of <=4 pixels with counts in {0,1,5}, every starting pixel, half widths 1 and 2, through the public "
+    "lk.refine_tracks_centroid(bias_correction=False) and through refine_peak_based_on_moment itself; seeded random integer "
+    "images (1-12 pixels x 1-10 lines, Poisson background, spots also on the first and last pixel row) with 1-3 hand-made "
+    "tracks (edge and half-pixel coordinates), widths 3-9 pixels, calibrated and uncalibrated. "
+    "merge_close_peaks (model op c08.mergeclose): exhaustive small scope - every ordered choice of <=3 coordinates of a "
+    "4-point grid, every amplitude order and equal amplitudes, minimum distances 1-3; seeded random frames of 1-7 peaks; and "
+    "the frames track_greedy itself hands to merge_close_peaks in every greedy case (before -> after). "
     "Non-trivial: a greedy/link case in which at least one link was made and at least one candidate was left "
     "unlinked (>=2 tracks); a window that is clipped by the image edge or lies strictly inside; a rectangle that "
     "removes some but not all detections."
@@ -411,9 +448,19 @@ class Spies:
                     args = _bound(orig, a, kw) or {}
                     peaks = args["peaks"] if "peaks" in args else a[0]
                     rec["premerge"] = [np.asarray(f.coordinates, dtype=float).copy() for f in peaks.frames]
+                    rec["premerge_amp"] = [np.asarray(f.peak_amplitudes, dtype=float).copy() for f in peaks.frames]
+                    rec["merge_md"] = float(args["minimum_distance"])
 
                 quietly(record)
-                return orig(*a, **kw)
+                res = orig(*a, **kw)
+
+                def record_out():
+                    rec["postmerge"] = [
+                        (np.asarray(f.coordinates, dtype=float).copy(), np.asarray(f.peak_amplitudes, dtype=float).copy()) for f in res.frames
+                    ]
+
+                quietly(record_out)
+                return res
 
             return merge
 
@@ -667,6 +714,13 @@ def run_greedy(case):
             (t0, p0), (t1, p1) = prect
             ops.append(f"c08.rectfilter {t0} {p0} {t1} {p1} {dets}")
             ans.append(dets)
+    if all(k in rec for k in ("premerge", "premerge_amp", "merge_md", "postmerge")) and len(rec["premerge"]) == len(rec["premerge_amp"]):
+        # which detections reach the linker: merge_close_peaks frame by frame (a frame with two equal coordinates is left
+        # out: NumPy's default argsort is not stable)
+        if all(len(set(float(x) for x in f)) == len(f) for f in rec["premerge"]):
+            er = lambda x: enc_rat(float(x))  # noqa: E731
+            ops.append(f"c08.mergeclose {enc_rat(rec['merge_md'])} {enc_listlist(rec['premerge'], er)} {enc_listlist(rec['premerge_amp'], er)}")
+            ans.append(enc_listlist([f[0] for f in rec["postmerge"]], er) + " " + enc_listlist([f[1] for f in rec["postmerge"]], er))
     if "score" in rec:
         sc = rec["score"]
         ops.append(
@@ -684,6 +738,11 @@ def run_greedy(case):
         )
         tie = any(len(set(float(a) for a in f[2])) < len(f[2]) or len(set(float(c) for c in f[0])) < len(f[0]) for f in frames)
         ans.append(("TIE " if tie else "") + show_nodes(lines_to_nodes(frames, lines)))
+        nodes = lines_to_nodes(frames, lines)
+        if not tie and all(j >= 0 for tr in nodes for _, j in tr):
+            # what the linker returns as (line index, coordinate) is `trackOf` of its node lists
+            ops.append(f"c08.trackof {enc_listlist([f[0] for f in frames], lambda x: enc_rat(float(x)))} {show_nodes(nodes)}")
+            ans.append(enc_listlist([[int(t) for t in l[0]] for l in lines]) + " " + enc_listlist([l[1] for l in lines], lambda x: enc_rat(float(x))))
     # photon counts of a few points, units of a few tracks
     pts = [(i, j) for i, t in enumerate(group) for j in range(len(t))]
     pick = pts[:: max(1, len(pts) // 4)][:4]
@@ -964,6 +1023,43 @@ def _combine(groups, mix):
     return out
 
 
+def _modelable(tracks):
+    """a dumped group that the model of the editing operations can be given: no empty track, finite coordinates"""
+    return all(t["t"] and len(t["t"]) == len(t["cidx"]) and all(math.isfinite(x) for x in t["cidx"]) for t in tracks)
+
+
+def enc_group(tracks):
+    return enc_listlist([t["t"] for t in tracks]) + " " + enc_listlist([t["cidx"] for t in tracks], lambda x: enc_rat(float(x)))
+
+
+def edit_model_ops(steps, envs, limit=8):
+    """(op, answer of the implementation) for the steps of an editing program that the Lean model has (`spec`)"""
+    out, prev = [], None
+    for rec in steps:
+        spec = rec.get("spec")
+        if spec is not None and prev is not None and _modelable(prev) and len(out) < limit:
+            lts = []
+            for t in prev:
+                k = _one_source(t.get("src", 0))
+                lts.append(None if k is None else envs[k]["line_time"])
+            if "tracks" in rec and not _modelable(rec["tracks"]):
+                pass
+            elif not spec.startswith("filter:") or (None not in lts and len(set(lts)) <= 1):
+                lt = lts[0] if lts and lts[0] is not None else envs[0]["line_time"]
+                out.append((f"c08.edit {enc_rat(lt)} {spec} {enc_group(prev)}", enc_group(rec["tracks"]) if "tracks" in rec else rec["refused"]))
+            elif None not in lts and "tracks" in rec:
+                # tracks of several kymographs with different line times: the filter decides track by track, in order
+                for k in sorted({_one_source(t.get("src", 0)) for t in prev}):
+                    if any(_one_source(t.get("src", 0)) is None for t in rec["tracks"]):
+                        continue
+                    after = [t for t in rec["tracks"] if _one_source(t.get("src", 0)) == k]
+                    before = [t for t in prev if _one_source(t.get("src", 0)) == k]
+                    out.append((f"c08.edit {enc_rat(envs[k]['line_time'])} {spec} {enc_group(before)}", enc_group(after)))
+        if "tracks" in rec:
+            prev = rec["tracks"]
+    return out
+
+
 def run_edit(case):
     """structural invariants, units and photon counts after editing/refining: judged by the oracle (the first op
     carries the dump); a few of the photon counts that a step reports for a stated width also go through the model"""
@@ -997,23 +1093,30 @@ def run_edit(case):
         steps.append({"step": "track", "tracks": dump_edit_group(group, kymos, shw), "stated": stated})
         for st in case["program"]:
             name = st[0]
+            spec = None  # the step as an op of the Lean model of the editing operations (c08.edit), when it has one
             try:
                 with warnings.catch_warnings():
                     warnings.simplefilter("ignore")
                     if name == "interpolate":
+                        spec = "interp:"
                         group = _regroup(group, [t.interpolate() for t in group])
                         stated = [None] * len(group)
                     elif name == "split" and len(group):
                         tr = group[st[1] % len(group)]
-                        _private(group, "_split_track", tr, st[2] % (len(tr) + 1), st[3])(tr, st[2] % (len(tr) + 1), st[3])
+                        meth = _private(group, "_split_track", tr, st[2] % (len(tr) + 1), st[3])
+                        spec = f"split:{st[1] % len(group)}:{st[2] % (len(tr) + 1)}:{int(st[3])}"
+                        meth(tr, st[2] % (len(tr) + 1), st[3])
                         stated = _carry(stated, len(group))
                     elif name == "merge" and len(group):
                         a, b = group[st[1] % len(group)], group[st[3] % len(group)]
                         if not same_source(src(a), src(b)):
                             raise ValueError("not-applicable: the two tracks are from different kymographs")
-                        _private(group, "_merge_tracks", a, st[2] % len(a), b, st[4] % len(b))(a, st[2] % len(a), b, st[4] % len(b))
+                        meth = _private(group, "_merge_tracks", a, st[2] % len(a), b, st[4] % len(b))
+                        spec = f"merge:{st[1] % len(group)}:{st[2] % len(a)}:{st[3] % len(group)}:{st[4] % len(b)}"
+                        meth(a, st[2] % len(a), b, st[4] % len(b))
                         stated = _carry(stated, len(group))
                     elif name == "filter":
+                        spec = f"filter:{int(st[1])}:{enc_rat(st[2])}"
                         group = kt.filter_tracks(group, minimum_length=st[1], minimum_duration=st[2])
                         stated = _carry(stated, len(group))
                     elif name == "refine_centroid":
@@ -1028,6 +1131,7 @@ def run_edit(case):
                     elif name == "interpolate_some" and len(group):
                         # only the selected tracks are interpolated, the others keep their localisation as it is
                         sel = _selected(st[1], len(group))
+                        spec = "interp:" + ",".join(str(i) for i, s_ in enumerate(sel) if not s_)
                         group = _regroup(group, [t.interpolate() if s_ else t for t, s_ in zip(group, sel)])
                         stated = [None if s_ else x for x, s_ in zip(stated, sel)]
                     elif name == "refine_centroid_some" and len(group):
@@ -1047,7 +1151,9 @@ def run_edit(case):
                         others = [t for t in list(group)[i + 1 :] + list(group)[:i] if same_source(src(t), src(a))]
                         if others:
                             b = others[st[3] % len(others)]
-                            _private(group, "_merge_tracks", a, st[2] % len(a), b, st[4] % len(b))(a, st[2] % len(a), b, st[4] % len(b))
+                            meth = _private(group, "_merge_tracks", a, st[2] % len(a), b, st[4] % len(b))
+                            spec = f"merge:{i}:{st[2] % len(a)}:{[q is b for q in group].index(True)}:{st[4] % len(b)}"
+                            meth(a, st[2] % len(a), b, st[4] % len(b))
                             stated = _carry(stated, len(group))
                     elif name == "merge_ends" and len(group) >= 2:
                         # the usual use: the last point of a track connected to the first point of a later one
@@ -1056,6 +1162,7 @@ def run_edit(case):
                         later = [t for t in group if t is not a and same_source(src(t), src(a)) and int(t.time_idx[0]) > int(a.time_idx[-1])]
                         if later:
                             b = later[st[2] % len(later)]
+                            spec = f"merge:{i}:{len(a) - 1}:{[q is b for q in group].index(True)}:0"
                             try:
                                 _private(group, "_merge_tracks", a, len(a) - 1, b, 0)(a, len(a) - 1, b, 0)
                             except _Skip:
@@ -1077,9 +1184,9 @@ def run_edit(case):
                                 stated = [x for x, s_ in zip(stated, sel) if s_] + [x for x, s_ in zip(stated, sel) if not s_]
                 if len(stated) != len(group):
                     stated = [None] * len(group)
-                steps.append({"step": name, "tracks": dump_edit_group(group, kymos, shw), "stated": list(stated)})
+                steps.append({"step": name, "tracks": dump_edit_group(group, kymos, shw), "stated": list(stated), "spec": spec})
             except (ValueError, RuntimeError) as e:
-                steps.append({"step": name, "refused": errname(e)})
+                steps.append({"step": name, "refused": errname(e), "spec": spec})
             except _Skip as e:
                 steps.append({"step": name, "unreachable": str(e)})
         ans = ["ok " + json.dumps({"steps": steps})]
@@ -1100,6 +1207,11 @@ def run_edit(case):
                 col = [int(row[t["t"][i]]) for row in env["image"]]
                 ops.append(f"c08.sumwin {stated_half_width(st['stated'][k][0], env)} {enc_list(col)} {enc_rat(t['cidx'][i])} 1/2")
                 ans.append(str(int(t["pc"][i])))
+        # every interpolate / split / merge / filter step through the model of the editing operations: the group the real
+        # code had before the step goes to `c08.edit`, which must answer the group the real code had after it (or refuse)
+        for o, a in edit_model_ops(steps, envs):
+            ops.append(o)
+            ans.append(a)
         return ans, ops
     except Unreachable:
         raise
@@ -1122,7 +1234,228 @@ def _selected(bits, n):
     return sel
 
 
+def _apply_spec(lk, group, spec):
+    """one editing step (in the notation of the model op) on a group, through the real code; returns the new group"""
+    f = spec.split(":")
+    if f[0] == "interp":
+        skip = {int(x) for x in f[1].split(",")} if f[1] else set()
+        return _regroup(group, [t if i in skip else t.interpolate() for i, t in enumerate(group)])
+    if f[0] == "split":
+        tr = group[int(f[1])]
+        _private(group, "_split_track", tr, int(f[2]), int(f[3]))(tr, int(f[2]), int(f[3]))
+        return group
+    if f[0] == "merge":
+        a, b = group[int(f[1])], group[int(f[3])]
+        _private(group, "_merge_tracks", a, int(f[2]), b, int(f[4]))(a, int(f[2]), b, int(f[4]))
+        return group
+    if f[0] == "filter":
+        return lk.filter_tracks(group, minimum_length=int(f[1]), minimum_duration=float(Fraction(f[2])))
+    raise ValueError("unknown step " + spec)
+
+
+def _resolve_spec(spec, group):
+    """track indices and merge nodes of a generated step reduced to the group as it is now (a program changes the number
+    of tracks); None when there is no track left.  Split nodes stay as they are: clipping them is the code's business."""
+    f = spec.split(":")
+    n = len(group)
+    if f[0] in ("split", "merge") and n == 0:
+        return None
+    if f[0] == "interp":
+        return "interp:" + ",".join(sorted({str(int(x) % n) for x in f[1].split(",")}, key=int)) if f[1] and n else "interp:"
+    if f[0] == "split":
+        return f"split:{int(f[1]) % n}:{f[2]}:{f[3]}"
+    if f[0] == "merge":
+        i, j = int(f[1]) % n, int(f[3]) % n
+        return f"merge:{i}:{int(f[2]) % max(1, len(group[i]))}:{j}:{int(f[4]) % max(1, len(group[j]))}"
+    return spec
+
+
+def run_editops(case):
+    """the editing operations themselves on hand-made tracks (documented KymoTrack constructor, the group class the public
+    tracker returns): `each` = every step applied to a fresh copy of the initial group, otherwise the steps in sequence;
+    each step through `c08.edit`, a sequence also as a whole through `c08.editprog`"""
+    lk = _lk()
+    lt = case["line_time"]
+    env = {"image": [[0] * case["n_lines"] for _ in range(case["n_pixels"])], "line_time": lt, "pixel_size_um": case.get("pixel_size_um")}
+    ops = ["c08.validate 1/1 0/1 1/1 0/1"]  # carries the dump for the oracle
+    kymo = make_kymo(env)
+    g_cls = _classes()[0]
+
+    def build():
+        tracks = [make_track([p[0] for p in tr], [p[1] for p in tr], kymo, lt) for tr in case["tracks"]]
+        return None if g_cls is None or any(t is None for t in tracks) else g_cls(tracks)
+
+    import warnings
+
+    group = build()
+    if group is None:
+        return [UNSEEN], ops
+    init = dump_group(group)
+    results, ans = [], [None]
+    prev, seq_ok = init, True
+    done = []
+    for spec in case["program"]:
+        if case.get("each"):
+            group, prev = build(), init
+        spec = _resolve_spec(spec, group)
+        if spec is None:
+            continue
+        done.append(spec)
+        rec = {"spec": spec}
+        try:
+            with warnings.catch_warnings():
+                warnings.simplefilter("ignore")
+                group = _apply_spec(lk, group, spec)
+            rec["tracks"] = dump_group(group)
+            a = enc_group(rec["tracks"])
+        except (ValueError, RuntimeError, IndexError) as e:
+            rec["refused"] = a = errname(e)
+        except _Skip as e:
+            rec["unreachable"] = str(e)
+            a, seq_ok = UNSEEN, False
+        results.append(rec)
+        if _modelable(prev) and ("tracks" not in rec or _modelable(rec["tracks"])):
+            ops.append(f"c08.edit {enc_rat(lt)} {spec} {enc_group(prev)}")
+            ans.append(a)
+        if "tracks" in rec:
+            prev = rec["tracks"]
+    if not case.get("each") and done and _modelable(init):
+        ops.append(f"c08.editprog {enc_rat(lt)} {'|'.join(done)} {enc_group(init)}")
+        ans.append(enc_group(prev) if seq_ok else UNSEEN)
+    ans[0] = "ok " + json.dumps({"init": init, "results": results})
+    return ans, ops
+
+
+def run_mergeclose(case):
+    """`merge_close_peaks` itself on one hand-made frame (found by name, called by parameter name; "?" when not reachable)"""
+    kp, _ = _find("KymoPeaks")
+    mcp, _ = _find("merge_close_peaks")
+    fr = case["frame"]
+    er = lambda x: enc_rat(float(x))  # noqa: E731
+    ops = [f"c08.mergeclose {enc_rat(case['md'])} {enc_listlist([[c for c, _ in fr]], er)} {enc_listlist([[a for _, a in fr]], er)}"]
+    try:
+        ok, peaks = _call_named(
+            kp, coordinates=np.array([c for c, _ in fr], dtype=float), time_points=np.zeros(len(fr), dtype=int),
+            peak_amplitudes=np.array([a for _, a in fr], dtype=float),
+        )
+        if not ok:
+            return [UNSEEN], ops
+        ok, res = _call_named(mcp, peaks=peaks, minimum_distance=case["md"])
+        if not ok:
+            return [UNSEEN], ops
+        try:
+            f = res.frames[0]
+            seen = enc_listlist([f.coordinates], er) + " " + enc_listlist([f.peak_amplitudes], er)
+        except (AttributeError, TypeError):
+            return [UNSEEN], ops  # the result carries its data under other names now: not an answer of the implementation
+        return [seen], ops
+    except Exception as e:
+        return [errname(e)], ops
+
+
+EPS_MOMENT = 1e-7  # the documented default `eps` of refine_peak_based_on_moment
+
+
+def run_refine(case):
+    """centroid refinement without bias correction on hand-made tracks and integer images: the public
+    `lk.refine_tracks_centroid(group, track_width, bias_correction=False)` against `c08.refine`, and the anchored pixel
+    walk itself (`refine_peak_based_on_moment`, found by name, called by parameter name) against `c08.moment`"""
+    import warnings
+
+    lk = _lk()
+    img, ps = case["image"], pixel_size(case)
+    n, n_lines = len(img), len(img[0])
+    w = case["width_px"]
+    h = int(math.ceil(w)) // 2
+    cols = enc_listlist([[int(img[r][t]) for r in range(n)] for t in range(n_lines)])
+    ops = ["c08.validate 1/1 0/1 1/1 0/1"]
+    ans = [None]
+    if case.get("walk_only"):
+        # an array with negative entries (not a photon-count image: outside the property, no oracle): only here do the
+        # clamps of the pixel walk stop a point, so only here is that branch of the model compared with the code
+        out = {"walk_only": True}
+    else:
+        kymo = make_kymo(case)
+        g_cls = _classes()[0]
+        tracks = [make_track([q[0] for q in tr], [q[1] for q in tr], kymo, case["line_time"]) for tr in case["tracks"]]
+        if g_cls is None or any(t is None for t in tracks):
+            return [UNSEEN], ops
+        group = g_cls(tracks)
+        init = dump_group(group)
+        out = {"init": init, "h": h}
+        try:
+            with warnings.catch_warnings():
+                warnings.simplefilter("ignore")
+                refined = lk.refine_tracks_centroid(group, track_width=w * ps, bias_correction=False)
+            out["tracks"] = dump_group(refined)
+            a = enc_group(out["tracks"])
+        except (ValueError, RuntimeError, IndexError) as e:
+            out["refused"] = a = errname(e)
+        ops.append(f"c08.refine {enc_rat(EPS_MOMENT)} {h} {n} {cols} {enc_group(init)}")
+        ans.append(a)
+        if case.get("program"):
+            # a program of editing steps and refinements on the same image: each step through c08.edit / c08.refine (from the
+            # group the real code had before it), the whole program through c08.steps
+            group = g_cls([make_track([q[0] for q in tr], [q[1] for q in tr], kymo, case["line_time"]) for tr in case["tracks"]])
+            prev, done, seq = init, [], []
+            for spec in case["program"]:
+                rec = {"spec": spec}
+                try:
+                    with warnings.catch_warnings():
+                        warnings.simplefilter("ignore")
+                        if spec.startswith("refine:"):
+                            wi = int(spec.split(":")[1])
+                            mspec = f"refine:{int(math.ceil(wi)) // 2}"
+                            rec["h"], rec["w"] = int(math.ceil(wi)) // 2, wi
+                            group = lk.refine_tracks_centroid(group, track_width=wi * ps, bias_correction=False)
+                        else:
+                            mspec = _resolve_spec(spec, group)
+                            if mspec is None:
+                                continue
+                            group = _apply_spec(lk, group, mspec)
+                    rec["tracks"] = dump_group(group)
+                    a = enc_group(rec["tracks"])
+                except (ValueError, RuntimeError, IndexError) as e:
+                    rec["refused"] = a = errname(e)
+                except _Skip:
+                    break
+                rec["mspec"] = mspec
+                if _modelable(prev) and ("tracks" not in rec or _modelable(rec["tracks"])):
+                    if mspec.startswith("refine:"):
+                        ops.append(f"c08.refine {enc_rat(EPS_MOMENT)} {rec['h']} {n} {cols} {enc_group(prev)}")
+                    else:
+                        ops.append(f"c08.edit {enc_rat(case['line_time'])} {mspec} {enc_group(prev)}")
+                    ans.append(a)
+                done.append(mspec)
+                seq.append(rec)
+                if "tracks" in rec:
+                    prev = rec["tracks"]
+            else:
+                if done and _modelable(init) and _modelable(prev):
+                    ops.append(f"c08.steps {enc_rat(EPS_MOMENT)} {enc_rat(case['line_time'])} {n} {cols} {'|'.join(done)} {enc_group(init)}")
+                    ans.append(enc_group(prev))
+            out["program"] = seq
+    # the pixel walk itself, from the rounded points of the first track
+    f, _ = _find("refine_peak_based_on_moment")
+    pts = [(int(round(c)), int(t)) for t, c in case["tracks"][0] if 0 <= int(round(c)) < n]
+    if pts:
+        ops.append(f"c08.moment {enc_rat(EPS_MOMENT)} {h} {n} {cols} [{','.join(f'{c}:{t}' for c, t in pts)}]")
+        try:
+            ok, r = _call_named(
+                f, data=np.array(img, dtype=float), coordinates=np.array([c for c, _ in pts]), time_points=np.array([t for _, t in pts]),
+                half_kernel_size=h, bias_correction=False,
+            )
+            ans.append(enc_list([float(x) for x in r[0]], lambda x: enc_rat(float(x))) + " " + enc_list([int(round(float(x))) for x in r[2]]) if ok else UNSEEN)
+        except (ValueError, RuntimeError, IndexError) as e:
+            ans.append(errname(e))
+    ans[0] = "ok " + json.dumps(out)
+    return ans, ops
+
+
 RUNNERS = {
+    "editops": run_editops,
+    "refine": run_refine,
+    "mergeclose": run_mergeclose,
     "greedy": run_greedy,
     "link": run_link,
     "sumwin": run_sumwin,
@@ -1267,7 +1600,112 @@ def agree(case, i, ia, ma):
         return abs(dec_float(it[3]) - d) <= 1e-12 * scale
     if op == "c08.frames":
         return ia == ma
+    if op == "c08.mergeclose":
+        # `abs(diff(coordinates)) < minimum_distance` is decided on the rounded difference of two doubles
+        return ia == ma or mergeclose_hangs_on_last_bits(computed(case)[1][i])
+    if op == "c08.moment":
+        if ia == ma:
+            return True
+        it, mt = ia.split(" "), ma.split(" ")
+        if len(it) != 2 or len(mt) != 2 or it[1] != mt[1]:
+            return False
+        a, m = dec_list(it[0], lambda x: float(dec_rat(x))), dec_list(mt[0], lambda x: float(dec_rat(x)))
+        return len(a) == len(m) and all(abs(u - v) <= 1e-9 * max(1.0, abs(u), abs(v)) for u, v in zip(a, m))
+    if op == "c08.steps" and ia != ma:
+        # the whole program: every refinement starts from np.round of doubles; if any group the real code had before a
+        # refinement has an interpolated coordinate within the last bits of a half-integer the program says nothing
+        # (each step is compared on its own from the group the real code had before it)
+        try:
+            d = json.loads(computed(case)[0][0][3:])
+            prev = d["init"]
+            for rec in d.get("program", []):
+                if rec.get("mspec", "").startswith("refine:") and refine_hangs_on_rounding("c08.refine e h n cols " + enc_group(prev)):
+                    return True
+                if "tracks" in rec:
+                    prev = rec["tracks"]
+        except Exception:
+            pass
+    if op in ("c08.edit", "c08.editprog", "c08.trackof", "c08.refine", "c08.steps"):
+        if ia == ma:
+            return True
+        it, mt = ia.split(" "), ma.split(" ")
+        if len(it) == 2 and len(mt) == 2 and it[0] == mt[0]:
+            # the same tracks with the same line indices; coordinates within 1e-9 (np.interp and the position/pixel size
+            # round trip are evaluated in doubles, the model over the rationals)
+            try:
+                a, m = _dec_listlist(it[1], lambda x: float(dec_rat(x))), _dec_listlist(mt[1], lambda x: float(dec_rat(x)))
+            except Exception:
+                return False
+            if len(a) == len(m) and all(
+                len(x) == len(y) and all(abs(u - v) <= 1e-9 * max(1.0, abs(u), abs(v)) for u, v in zip(x, y)) for x, y in zip(a, m)
+            ):
+                return True
+            # the starting pixel is np.round of a double: a coordinate within the last bits of a half-integer says nothing
+            return op == "c08.refine" and refine_hangs_on_rounding(computed(case)[1][i])
+        # `duration >= minimum_duration` is decided on doubles: lenient only when the double duration of some track is not
+        # the exact one and the exact one is within 1e-9 of the minimum (counted in the evidence)
+        return op == "c08.edit" and filter_hangs_on_last_bits(computed(case)[1][i])
     return ia == ma
+
+
+def mergeclose_hangs_on_last_bits(op):
+    toks = op.split(" ")
+    try:
+        md = Fraction(dec_rat(toks[1]))
+        for cs in _dec_listlist(toks[2], lambda x: Fraction(dec_rat(x))):
+            for i in range(len(cs)):
+                for j in range(i + 1, len(cs)):
+                    if 0 < abs(abs(cs[i] - cs[j]) - md) <= Fraction(1, 10**12) * max(1, md):
+                        return True
+    except Exception:
+        return False
+    return False
+
+
+def agree_plain_group(a, m):
+    try:
+        if a.split(" ")[0] != m.split(" ")[0]:
+            return False
+        x, y = (_dec_listlist(v.split(" ")[1], lambda q: float(dec_rat(q))) for v in (a, m))
+        return all(len(p) == len(q) and all(abs(u - v) <= 1e-9 * max(1.0, abs(u), abs(v)) for u, v in zip(p, q)) for p, q in zip(x, y))
+    except Exception:
+        return False
+
+
+def refine_hangs_on_rounding(op):
+    """a `c08.refine` op in which some interpolated coordinate lies within 1e-9 of a half-integer WITHOUT lying exactly on
+    it (rational arithmetic on the doubles): np.round of the double then decides the starting pixel either way"""
+    toks = op.split(" ")
+    try:
+        times = _dec_listlist(toks[5], int)
+        coords = _dec_listlist(toks[6], lambda x: Fraction(dec_rat(x)))
+        for ts, cs in zip(times, coords):
+            for (t0, c0), (t1, c1) in zip(zip(ts, cs), zip(ts[1:], cs[1:])):
+                for t in range(t0, t1 + 1):
+                    x = c0 + (c1 - c0) * Fraction(t - t0, t1 - t0)
+                    d = abs(x - math.floor(x) - Fraction(1, 2))
+                    if 0 < d <= Fraction(1, 10**9):
+                        return True
+    except Exception:
+        return False
+    return False
+
+
+def filter_hangs_on_last_bits(op):
+    toks = op.split(" ")
+    try:
+        lt, spec = Fraction(toks[1]), toks[2].split(":")
+        if spec[0] != "filter":
+            return False
+        min_dur = Fraction(spec[2])
+        ltf = float(lt)
+        for ts in _dec_listlist(toks[3], int):
+            exact = lt * (ts[-1] - ts[0])
+            if Fraction(ltf * ts[-1] - ltf * ts[0]) != exact and abs(exact - min_dur) <= Fraction(1, 10**9) * max(abs(min_dur), abs(exact)):
+                return True
+    except Exception:
+        return False
+    return False
 
 
 def _threshold_below_min(case):
@@ -1471,6 +1909,75 @@ def oracle_edit(case, ia):
     return None
 
 
+def oracle_refine(case, ia):
+    """every track produced by refinement has strictly increasing line indices inside the kymograph and positions inside
+    the image; units; the photon count of a point is the window sum of the stated half width on the pixel containing it"""
+    if ia[0] == UNSEEN:
+        return None
+    if not ia[0].startswith("ok "):
+        return f"refinement raised {ia[0]}"
+    d = json.loads(ia[0][3:])
+    if d.get("walk_only"):
+        return None
+    if "tracks" not in d:
+        return f"refinement of tracks inside the image raised {d.get('refused')}"
+    img, ps = case["image"], pixel_size(case)
+    where = "after refine_tracks_centroid(bias_correction=False):"
+    r = well_formed(d["tracks"], len(img), len(img[0]), ps, where) or units_ok(d["tracks"], ps, case["line_time"], where)
+    if r:
+        return r
+    if len(d["tracks"]) != len(d["init"]):
+        return f"well-formed: {where} {len(d['init'])} tracks went in, {len(d['tracks'])} came out"
+    for k, t in enumerate(d["tracks"]):
+        if not t["t"]:
+            return f"well-formed: {where} track {k} is empty"
+        r = counts_ok(t, k, img, [case["width_px"] * ps], d["h"], None, where)
+        if r:
+            return r
+    for rec in d.get("program", []):
+        if "tracks" not in rec:
+            continue
+        where = f"after {rec['spec']}:"
+        r = well_formed(rec["tracks"], len(img), len(img[0]), ps, where) or units_ok(rec["tracks"], ps, case["line_time"], where)
+        if r:
+            return r
+        for k, t in enumerate(rec["tracks"]):
+            if not t["t"]:
+                return f"well-formed: {where} track {k} is empty"
+            if "h" in rec:
+                r = counts_ok(t, k, img, [rec["w"] * ps], rec["h"], None, where)
+                if r:
+                    return r
+    return None
+
+
+def oracle_editops(case, ia):
+    """every track produced by interpolation, splitting, merging or filtering has strictly increasing integer scan-line
+    indices inside the kymograph and positions inside the image; times and positions are indices times line time / pixel
+    size; an interpolated track has a point on every line from its first to its last"""
+    if ia[0] == UNSEEN:
+        return None
+    if not ia[0].startswith("ok "):
+        return f"editing operations raised {ia[0]}"
+    d = json.loads(ia[0][3:])
+    ps = case["pixel_size_um"] if case.get("pixel_size_um") is not None else 1.0
+    for rec in d["results"]:
+        if "tracks" not in rec:
+            continue
+        where = f"after {rec['spec']}:"
+        for k, t in enumerate(rec["tracks"]):
+            if not t["t"]:
+                return f"well-formed: {where} track {k} is empty"
+        r = well_formed(rec["tracks"], case["n_pixels"], case["n_lines"], ps, where) or units_ok(rec["tracks"], ps, case["line_time"], where)
+        if r:
+            return r
+        if rec["spec"] == "interp:":
+            for k, t in enumerate(rec["tracks"]):
+                if t["t"] != list(range(t["t"][0], t["t"][-1] + 1)):
+                    return f"well-formed: {where} interpolated track {k} does not have one point on every line from its first to its last: {t['t']}"
+    return None
+
+
 def _judge_edit_track(t, k, src, envs, st, stated, shw, where):
     env = envs[src]
     img, ps, lt = env["image"], pixel_size(env), env["line_time"]
@@ -1540,6 +2047,10 @@ def oracle(case, ia):
         return oracle_link(case, ia)
     if k == "edit":
         return oracle_edit(case, ia)
+    if k == "editops":
+        return oracle_editops(case, ia)
+    if k == "refine":
+        return oracle_refine(case, ia)
     if ia and ia[0] == UNSEEN and k in ("sumwin", "units", "rect"):
         return None
     if k == "sumwin":
@@ -1606,6 +2117,10 @@ def nontrivial(case, ia):
         return len(case["col"]) > 0
     if k == "edit":
         return ia[0].startswith("ok ") and len(json.loads(ia[0][3:])["steps"]) >= 2
+    if k == "editops":
+        return ia[0].startswith("ok ") and any("tracks" in r for r in json.loads(ia[0][3:])["results"])
+    if k == "refine":
+        return ia[0].startswith("ok ") and ("tracks" in json.loads(ia[0][3:]) or bool(case.get("walk_only"))) and any(v for row in case["image"] for v in row)
     return True
 
 
@@ -1669,6 +2184,17 @@ def shrink(case):
                     c["frames"] = c["frames"][:-1]
                 if c["frames"]:
                     yield c
+    elif k == "refine":
+        if len(case["tracks"]) > 1:
+            for i in range(len(case["tracks"])):
+                yield dict(case, tracks=case["tracks"][:i] + case["tracks"][i + 1 :])
+        for i, tr in enumerate(case["tracks"]):
+            if len(tr) > 1:
+                yield dict(case, tracks=case["tracks"][:i] + [tr[:-1]] + case["tracks"][i + 1 :])
+    elif k == "editops":
+        if len(case["program"]) > 1:
+            for i in range(len(case["program"])):
+                yield dict(case, program=case["program"][:i] + case["program"][i + 1 :])
     elif k == "sumwin":
         if len(case["col"]) > 1:
             c = dict(case)
@@ -2002,6 +2528,88 @@ def gen_multi(rng, big=False):
     return case
 
 
+def editops_specs(lens):
+    """every editing step on a group whose tracks have the given numbers of points: both interpolations, every split
+    (nodes -1 .. len+1, min_length 1..3), every merge of any two nodes, every filter of a small grid"""
+    n = len(lens)
+    specs = ["interp:"] + ([f"interp:{i}" for i in range(n)] if n > 1 else [])
+    for i in range(n):
+        for node in range(-1, lens[i] + 2):
+            for ml in (1, 2, 3):
+                specs.append(f"split:{i}:{node}:{ml}")
+    for i in range(n):
+        for sn in range(lens[i]):
+            for j in range(n):
+                for en in range(lens[j]):
+                    specs.append(f"merge:{i}:{sn}:{j}:{en}")
+    return specs
+
+
+def gen_refine(rng):
+    n, n_lines = rng.randint(1, 12), rng.randint(1, 10)
+    bg = rng.choice([0, 0, 1, 3])
+    img = [[poisson(rng, bg) for _ in range(n_lines)] for _ in range(n)]
+    for _ in range(rng.randint(0, 3)):  # bright spots, also on the first and last pixel row
+        r0 = rng.choice([0, n - 1, rng.randint(0, n - 1)])
+        for t in range(n_lines):
+            if rng.chance(0.8):
+                r_ = min(max(r0 + rng.randint(-1, 1), 0), n - 1)
+                img[r_][t] += rng.randint(3, 40)
+    tracks = []
+    for _ in range(rng.randint(1, 3)):
+        lines = sorted(rng.sample(range(n_lines), rng.randint(1, min(n_lines, 5))))
+        tracks.append([[t, rng.choice([0.0, n - 1.0, -0.5, 0.5, n - 1.5]) if rng.chance(0.3) and n >= 2 else round(rng.uniform(-0.5, n - 0.51), 2)] for t in lines])
+    for tr in tracks:
+        for q in tr:
+            q[1] = min(max(q[1], -0.5), n - 0.51)
+    case = {"op": "refine", "image": img, "line_time": rng.choice(LINE_TIMES), "pixel_size_um": rng.choice([None, None, 0.5, 0.25, 2.0]),
+            "tracks": tracks, "width_px": rng.choice([3, 3, 4, 5, 7, 9])}
+    if rng.chance(0.5):
+        prog, nt = [], len(tracks)
+        for _ in range(rng.randint(1, 5)):
+            m = rng.randint(0, 9)
+            if m <= 3:
+                prog.append(f"refine:{rng.choice([3, 4, 5, 7])}")
+            elif m == 4:
+                prog.append("interp:")
+            elif m <= 6:
+                prog.append(f"split:{rng.randint(0, nt)}:{rng.randint(0, 5)}:1")
+            elif m <= 8:
+                prog.append(f"merge:{rng.randint(0, nt)}:{rng.randint(0, 3)}:{rng.randint(0, nt)}:{rng.randint(0, 3)}")
+            else:
+                prog.append(f"filter:{rng.randint(1, 3)}:0/1")
+        case["program"] = prog
+    return case
+
+
+def gen_editops(rng):
+    n_lines, n_pixels = rng.randint(2, 14), rng.randint(4, 12)
+    lt = rng.choice(LINE_TIMES)
+    psu = rng.choice([None, None, 0.25, 0.5, 0.1, 0.0817, 2.0])
+    tracks = []
+    for _ in range(rng.randint(1, 4)):
+        lines = sorted(rng.sample(range(n_lines), rng.randint(1, min(n_lines, 6))))
+        edge = rng.chance(0.3)
+        tracks.append([[t, rng.choice([0.0, n_pixels - 1.0, -0.5, n_pixels - 0.5]) if edge and rng.chance(0.5) else round(rng.uniform(-0.5, n_pixels - 0.5), 3)] for t in lines])
+    # the group is followed abstractly (numbers of points only roughly known), so indices are drawn small and may miss
+    prog, lens = [], [len(t) for t in tracks]
+    for _ in range(rng.randint(1, 6)):
+        m, n = rng.randint(0, 9), max(1, len(lens))
+        if m <= 1:
+            prog.append("interp:" + (",".join(str(i) for i in range(n) if rng.chance(0.3)) if m else ""))
+        elif m <= 4:
+            i = rng.randint(0, n - 1)
+            prog.append(f"split:{i}:{rng.randint(-1, 7)}:{rng.choice([1, 1, 1, 2, 3])}")
+        elif m <= 7:
+            prog.append(f"merge:{rng.randint(0, n - 1)}:{rng.randint(0, 3)}:{rng.randint(0, n - 1)}:{rng.randint(0, 3)}")
+        else:
+            k = rng.randint(0, 4)
+            # `duration >= minimum_duration` is decided on doubles: an exact multiple only of a dyadic line time
+            md = Fraction(lt) * k if is_dyadic(lt) and rng.chance(0.5) else Fraction(lt) * (2 * k + 1) / 2
+            prog.append(f"filter:{rng.randint(1, 4)}:{enc_rat(float(md))}")
+    return {"op": "editops", "line_time": lt, "pixel_size_um": psu, "n_lines": n_lines, "n_pixels": n_pixels, "tracks": tracks, "program": prog}
+
+
 def small_image():
     # two spots, one blinking; fixed so that the malformed stream is about the parameters only
     img = [[0] * 8 for _ in range(10)]
@@ -2091,6 +2699,77 @@ def cases(tier, rng):
             for idx in ([0], [3], [0, 1], [2, 5, 6], [1, 2, 3, 4, 9]):
                 yield {"stream": "small-scope", "op": "units", "image": [[0] * 10 for _ in range(8)], "line_time": lt,
                        "pixel_size_um": psu, "idx": idx, "coords": [0.25 + 0.7 * i for i in range(len(idx))]}
+
+    # ---- exhaustive small scope: the editing operations on hand-made tracks (every non-empty set of lines of a 4-line
+    #      kymograph, alone and in pairs; every interpolation, split, merge and a grid of filters, each on a fresh group)
+    subsets = [[t for t in range(4) if (m >> t) & 1] for m in range(1, 16)]
+    ca, cb = [1.0, 3.5, 0.0, 2.25], [4.0, 0.5, 2.0, 3.0]
+    n_pair = 0
+    for a in subsets:
+        groups = [[[[t, ca[t]] for t in a]]]
+        for b in subsets:
+            n_pair += 1
+            if quick and n_pair % 4:
+                continue
+            groups.append([[[t, ca[t]] for t in a], [[t, cb[t]] for t in b]])
+        for tr in groups:
+            for lt, mds in ((0.5, (0, 0.5, 0.75, 1.0, 1.5)), (0.03, (0.0, 0.045, 0.075))):
+                specs = editops_specs([len(t) for t in tr]) if lt == 0.5 else []
+                specs += [f"filter:{ml}:{enc_rat(md)}" for ml in (1, 2, 3) for md in mds]
+                yield {"stream": "small-scope-editops", "op": "editops", "each": True, "line_time": lt, "pixel_size_um": None,
+                       "n_lines": 4, "n_pixels": 5, "tracks": tr, "program": specs}
+    # ---- exhaustive small scope: the pixel walk of the centroid refinement (no bias correction): every one-line image of
+    #      <= 4 pixels with counts in {0, 1, 5}, every starting pixel, half widths 1 and 2
+    for n in (1, 2, 3, 4):
+        for vals in itertools.product((0, 1, 5), repeat=n):
+            for c0 in range(n):
+                for w in (3, 5):
+                    yield {"stream": "small-scope-refine", "op": "refine", "image": [[v] for v in vals], "line_time": 0.5,
+                           "pixel_size_um": None, "tracks": [[[0, float(c0)]]], "width_px": w}
+    for n in (1, 2, 3):
+        for vals in itertools.product((-4, 0, 5), repeat=n):
+            if min(vals) < 0:
+                for c0 in range(n):
+                    yield {"stream": "small-scope-refine", "op": "refine", "walk_only": True, "image": [[v] for v in vals],
+                           "line_time": 0.5, "pixel_size_um": None, "tracks": [[[0, float(c0)]]], "width_px": 3}
+    # ---- exhaustive small scope: merge_close_peaks on one frame: every ordered choice of <= 3 coordinates of a grid,
+    #      every order of distinct amplitudes (and one pair of equal ones), minimum distances 1, 2, 3
+    mgrid = [0.0, 1.0, 2.5, 3.0]
+    for k in (1, 2, 3):
+        for cs in itertools.permutations(mgrid, k):
+            for am in list(itertools.permutations([3.0, 7.0, 5.0][:k])) + ([tuple([4.0] * k)] if k > 1 else []):
+                for md in (1, 2, 3):
+                    yield {"stream": "small-scope-mergeclose", "op": "mergeclose", "frame": [[c, a] for c, a in zip(cs, am)], "md": md}
+    r = rng.fork("c08-mergeclose")
+    for i in range(300 if quick else 4000):
+        sub = r.fork(i)
+        k = sub.randint(1, 7)
+        cs = []
+        while len(cs) < k:
+            c = round(sub.uniform(0, 12), sub.choice([0, 1, 3]))
+            if c not in cs:
+                cs.append(c)
+        yield {"stream": "random-mergeclose", "op": "mergeclose", "subseed": i, "md": sub.randint(1, 4),
+               "frame": [[c, float(sub.randint(1, 6)) if sub.chance(0.5) else round(sub.uniform(1, 50), 2)] for c in cs]}
+    r = rng.fork("c08-refine-walk")
+    for i in range(100 if quick else 1500):
+        sub = r.fork(i)
+        n, n_lines = sub.randint(1, 8), sub.randint(1, 4)
+        yield {"stream": "random-refine", "op": "refine", "walk_only": True, "subseed": i, "line_time": 0.5, "pixel_size_um": None,
+               "image": [[sub.randint(-6, 9) for _ in range(n_lines)] for _ in range(n)], "width_px": sub.choice([3, 5]),
+               "tracks": [[[t, float(sub.randint(0, n - 1))] for t in range(n_lines)]]}
+    r = rng.fork("c08-refine")
+    for i in range(300 if quick else 5000):
+        sub = r.fork(i)
+        c = gen_refine(sub)
+        c.update({"stream": "random-refine", "subseed": i})
+        yield c
+    r = rng.fork("c08-editops")
+    for i in range(400 if quick else 6000):
+        sub = r.fork(i)
+        c = gen_editops(sub)
+        c.update({"stream": "random-editops", "subseed": i})
+        yield c
 
     # ---- seeded random
     r = rng.fork("c08-greedy")
@@ -2213,7 +2892,52 @@ def extra_coverage(results):
                         if isinstance(t.get("samp"), list):
                             counts_sampled += len(t["t"])
             multi_cases += several
+    refine_pts = {"points": 0, "on first or last pixel row": 0, "moved by at least one pixel": 0, "walks compared (c08.moment)": 0}
+    for r in results:
+        c = r["case"]
+        if c["op"] == "refine" and r["impl"][0].startswith("ok "):
+            d = json.loads(r["impl"][0][3:])
+            n_ = len(c["image"])
+            for t0_, t1_ in zip(d.get("init", []), d.get("tracks", [])):
+                it_ = dict(zip(t0_["t"], t0_["cidx"]))
+                for tt, cc in zip(t1_["t"], t1_["cidx"]):
+                    refine_pts["points"] += 1
+                    refine_pts["on first or last pixel row"] += pixel_of(cc) in (0, n_ - 1)
+                    if tt in it_ and abs(cc - it_[tt]) >= 1:
+                        refine_pts["moved by at least one pixel"] += 1
+            refine_pts["walks compared (c08.moment)"] += sum(1 for o, a in zip(r["ops"], r["impl"]) if o.startswith("c08.moment ") and a != UNSEEN)
+    refine_pts["compared leniently (an interpolated coordinate within 1e-9 of a half-integer, not on it)"] = sum(
+        1 for r in results for o, a, m in zip(r["ops"], r["impl"], r["model"])
+        if o.startswith("c08.refine ") and a != UNSEEN and not r["disagree"] and " " in a and " " in m and not agree_plain_group(a, m)
+    )
+    mc = {"frames compared": 0, "frames in which a peak was discarded": 0, "ops from track_greedy runs": 0, "compared leniently (a distance within 1e-12 of the minimum, not on it)": 0}
+    for r in results:
+        for o, a, m in zip(r["ops"], r["impl"], r["model"]):
+            if o.startswith("c08.mergeclose ") and a != UNSEEN and " " in a:
+                before, after = _dec_listlist(o.split(" ")[2], str), _dec_listlist(a.split(" ")[0], str)
+                mc["frames compared"] += len(before)
+                mc["frames in which a peak was discarded"] += sum(1 for x, y in zip(before, after) if len(y) < len(x))
+                mc["ops from track_greedy runs"] += r["case"]["op"] == "greedy"
+                mc["compared leniently (a distance within 1e-12 of the minimum, not on it)"] += a != m and not r["disagree"]
+    model_steps, lenient_filters, progs, trackofs = {}, 0, 0, 0
+    for r in results:
+        for o, a, m in zip(r["ops"], r["impl"], r["model"]):
+            if o.startswith("c08.edit ") and a != UNSEEN:
+                k_ = o.split(" ")[2].split(":")[0] + (" refused" if " " not in a else " done")
+                model_steps[k_] = model_steps.get(k_, 0) + 1
+                if " " in a and " " in m and a.split(" ")[0] != m.split(" ")[0] and not r["disagree"]:
+                    lenient_filters += 1
+            elif (o.startswith("c08.editprog ") or o.startswith("c08.steps ")) and a != UNSEEN:
+                progs += 1
+            elif o.startswith("c08.trackof ") and a != UNSEEN:
+                trackofs += 1
     return {
+        "refinement_without_bias_correction_compared_with_the_model": refine_pts,
+        "merge_close_peaks_compared_with_the_model": mc,
+        "edit_model_steps_compared_with_the_real_code": dict(sorted(model_steps.items())),
+        "edit_and_refine_model_whole_programs_compared": progs,
+        "edit_model_filter_steps_that_hang_on_the_last_bits_compared_leniently": lenient_filters,
+        "linker_results_compared_as_line_coordinate_tracks": trackofs,
         "edit_steps_done": dict(sorted(steps.items())),
         "edit_steps_refused": dict(sorted(refused.items())),
         "edit_steps_not_reachable_private_method_gone": dict(sorted(unreachable.items())),
